@@ -583,6 +583,9 @@ class Strh(ArmInstruction):
             offset = self.imm
             u = 1
 
+        if offset > 255:
+            raise ValueError(f"Cannot encode offset {self.imm} in strh")
+
         tokens[0][0:4] = offset & 0xF
         tokens[0][4:8] = 0b1011
         tokens[0][8:12] = (offset >> 4) & 0xF
